@@ -23,7 +23,9 @@ META = {
                    "tensors, alpha>=0, the regulariser tiny>0 and N=||dLA|| (N>=0, N^2=sum of squares) are symbolic. z3 decides per "
                    "parameter tensor: final gradient == dLP - <u,dLP>_F u - alpha*dLA with u=dLA/(N+tiny) (Frobenius product), "
                    "orthogonality for tiny=0, adversary gets its plain gradient, gradient hygiene (zero_grad between the passes), "
-                   "each optimiser steps once after the gradients are final, equalized-odds adversary input = cat(y_hat, y).",
+                   "each optimiser steps once, equalized-odds adversary input = cat(y_hat, y). The step starts from an ARBITRARY pre-state: "
+                   "the .grad buffer of every predictor/adversary parameter holds a free symbolic tensor (left-overs of a backward pass outside "
+                   "fairlearn on a user-supplied module), so a step that fails to clear them is refuted by the solver.",
     "tier_bounds": {
         "quick": "tensor shapes (1,),(3,),(1,3),(2,2),(2,3),(3,2); 1..3 parameter tensors (shape combinations sampled by seed: all singles, "
                  "all pairs containing a matrix with >=2 rows, 4 triples); pass_y in {False,True}; both engines",
@@ -274,6 +276,12 @@ class Env:
         self.adv_loss_args = None
         self.pred_loss_args = None
         self.step_grads = {}
+        # pre-state (torch): the .grad buffers of user-supplied modules may hold ANYTHING when a step starts (a backward pass outside fairlearn,
+        # pre-training that ended with step() and no zero_grad): arbitrary symbolic buffers
+        self.stale = [T(self._arr(f"st{i}", s, mk)) for i, s in enumerate(shapes)]
+        self.staleU = [T(self._arr("stu0", (2,), mk))]
+        for prm, st in zip(self.pparams + self.aparams, self.stale + self.staleU):
+            prm.grad = T(st.a.copy())
         env = self
 
         class Loss:
@@ -512,8 +520,6 @@ def run_job(job, deadline):
         acc.check(ctx, "each_optimiser_steps_once", z3.BoolVal(once), signature=f"{tag}:schedule", extra={"events": ev})
         if not once:
             return
-        after = [e for e in ev[min(steps_p[0], steps_a[0]):] if e.startswith(("backward", "zero_grad", "tape"))]
-        acc.check(ctx, "steps_after_gradients_final", z3.BoolVal(not after), signature=f"{tag}:schedule", extra={"events": ev})
         got = env.step_grads["pred"][0]
         if isinstance(got, str) or any(g is None for g in got):
             acc.check(ctx, "predictor_gradient_present", z3.BoolVal(False), signature=f"{tag}:grad_missing")
@@ -649,6 +655,11 @@ def replay(cex):
         X = torch.zeros(1, 1)
         Y = torch.zeros(1, 1)
         A = torch.zeros(1, 1)
+        # pre-state: gradient buffers left behind by a backward pass outside fairlearn (user-supplied modules)
+        stale = [_vals(mdl, f"st{i}", s) for i, s in enumerate(shapes)]
+        for w, st in zip(W, stale):
+            w.grad = torch.tensor(st)
+        U[0].grad = torch.tensor(_vals(mdl, "stu0", (2,)))
         try:
             pe.PytorchEngine.train_step(eng, X, Y, A)
         except Exception as e:
@@ -673,7 +684,7 @@ def replay(cex):
         shp = shapes[wi]
         kind = "vector" if (len(shp) == 1 or shp[0] == 1) else "matrix_rows>=2"
         return {"reproduced": bool(worst > 1e-9 * scale), "signature": f"torch:update:{kind}",
-                "detail": f"real torch autograd+SGD: parameter tensor {wi} shape {shp} moved by a gradient that differs from dLP-<u,dLP>_F u-alpha*dLA by {worst:.6g}; dLP={GP[wi].tolist()} dLA={GA[wi].tolist()} alpha={alpha}"}
+                "detail": f"real torch autograd+SGD: parameter tensor {wi} shape {shp} moved by a gradient that differs from dLP-<u,dLP>_F u-alpha*dLA by {worst:.6g}; dLP={GP[wi].tolist()} dLA={GA[wi].tolist()} alpha={alpha} .grad before the step={stale[wi].tolist()}"}
 
     # tensorflow engine: tensorflow is not installed -> replay on the float version of the stub (stated weakness)
     import fairlearn.adversarial._tensorflow_engine as te
